@@ -18,6 +18,7 @@ type Series struct {
 	FailErr error
 	Panic   bool
 	Iters   []*ListIter
+	OnLand  func(idx int) // handed to every iterator of this series
 }
 
 func NewSeries(l labels.Labels, s []Sample) *Series {
@@ -30,6 +31,7 @@ func (s *Series) Iterator() chunkenc.Iterator {
 	sym.Yield() // storage callbacks are scheduling points (real storages do I/O here)
 	it := NewListIter(s.S)
 	it.FailAt, it.FailErr, it.Panic = s.FailAt, s.FailErr, s.Panic
+	it.OnLand = s.OnLand
 	s.Iters = append(s.Iters, it)
 	return it
 }
